@@ -3,6 +3,7 @@
 package main
 
 import (
+	"runtime"
 	"bytes"
 	"crypto/sha256"
 	"encoding/json"
@@ -465,9 +466,61 @@ func genC08(rng *mrand.Rand, id string, p, e, a int, enc string) c08Case {
 	return c
 }
 
+// runC08Concurrent: eight goroutines, each with a signed message of its own (distinct content, 3 MiB attachment),
+// render at the same time; every output has to verify.
+func runC08Concurrent(r *ev.Run, round int) {
+	const n = 8
+	outs := make([][]byte, n)
+	errs := make([]error, n)
+	kinds := make([]string, n)
+	var msgs []*mail.Msg
+	for g := 0; g < n; g++ {
+		line := fmt.Sprintf("line of the attachment of message %d in round %d, some filler text to make it long\r\n", g, round)
+		s := gen.MsgSpec{ID: fmt.Sprintf("c08-conc-%d-%d", round, g), Enc: "quoted-printable", Subject: "concurrent signed render", From: gen.AddrSpec{Addr: "sender@example.com"},
+			To:     []gen.AddrSpec{{Addr: "rcpt@example.net"}},
+			Parts:  []gen.PartSpec{{Type: "text/plain", Content: []byte(fmt.Sprintf("body of message %d\r\n", g))}},
+			Attach: []gen.FileSpec{{Name: "big.txt", Enc: []string{"8bit", "base64"}[g%2], Content: bytes.Repeat([]byte(line), 3000000/len(line))}},
+			SMIME:  []string{"rsa", "ecdsa"}[g%2], WithInt: g%4 < 2}
+		kinds[g] = s.SMIME
+		m, err := s.Build(&gen.Env{})
+		if err != nil {
+			r.HarnessError("C08 concurrent build: " + err.Error())
+			return
+		}
+		msgs = append(msgs, m)
+	}
+	var wg sync.WaitGroup
+	start := make(chan struct{})
+	for g := 0; g < n; g++ {
+		wg.Add(1)
+		go func(g int) {
+			defer wg.Done()
+			var b bytes.Buffer
+			<-start
+			_, errs[g] = msgs[g].WriteTo(&b)
+			outs[g] = b.Bytes()
+		}(g)
+	}
+	close(start)
+	wg.Wait()
+	r.Count("concurrent_signed_renders", n)
+	for g := 0; g < n; g++ {
+		if errs[g] != nil {
+			r.Violate(ev.Violation{Key: "render-error:concurrent-renders", What: fmt.Sprintf("signed message %d rendered while %d others render: WriteTo returned %v", g, n-1, errs[g]), Case: map[string]any{"concurrent_round": round}})
+			continue
+		}
+		_, probs := verifySigned(outs[g], g%4 < 2, kinds[g])
+		for _, p := range hardProblems(probs) {
+			r.Violate(ev.Violation{Key: probCode(p) + ":concurrent-renders", What: fmt.Sprintf("signed message %d (%s key) rendered while %d other goroutines render messages of their own: the signature does not verify: %s", g, kinds[g], n-1, p), Case: map[string]any{"concurrent_round": round}, Observed: ev.Q(outs[g], 1200)})
+		}
+		r.Count("signatures_verified", 1)
+	}
+	r.Eval(fmt.Sprintf("concurrent|%d", round), true)
+}
+
 func runC08(r *ev.Run, rep *ev.ReplayDoc) ev.Summary {
 	sum := ev.Summary{
-		Rule: "S/MIME-signed messages over enumerated shapes (parts 0-3 x embeds 0-2 x attachments 0-2) and random specs with canonical-CRLF content, every transfer encoding per part and file, part and file descriptions that need encoded-words under every message encoding and charset, empty generic headers, address lists emptied by the IgnoreInvalid setters, (multi-line) preformatted headers, long folded headers, signing configured through SignWithTLSCertificate, signing configured after the message has been rendered unsigned, message middlewares that change the body / a header / the part encoding / add an attachment, RSA-2048 and ECDSA-P256 signer certificates with and without the intermediate, also leaves whose own certificate is signed ecdsa-with-SHA384 by a P-384 CA, a leaf that has the same serial number as its issuing intermediate, a leaf whose issuer field spells the intermediate's name in another string encoding, and the chain's root handed over in place of the direct issuer; each message rendered twice, and a third time after further builder calls (add an alternative / attachment / embed, change subject or header, replace the body, add a recipient). The harness splits multipart/signed with its own MIME reader and verifies the detached CMS SignedData with its own verifier; openssl smime -verify cross-checks (all cases in quick, a sample in thorough). distinct by (shape, features)",
+		Rule: "S/MIME-signed messages over enumerated shapes (parts 0-3 x embeds 0-2 x attachments 0-2) and random specs with canonical-CRLF content, every transfer encoding per part and file, part and file descriptions that need encoded-words under every message encoding and charset, empty generic headers, address lists emptied by the IgnoreInvalid setters, (multi-line) preformatted headers, long folded headers, signing configured through SignWithTLSCertificate, signing configured after the message has been rendered unsigned, message middlewares that change the body / a header / the part encoding / add an attachment, RSA-2048 and ECDSA-P256 signer certificates with and without the intermediate, also leaves whose own certificate is signed ecdsa-with-SHA384 by a P-384 CA, a leaf that has the same serial number as its issuing intermediate, a leaf whose issuer field spells the intermediate's name in another string encoding, and the chain's root handed over in place of the direct issuer; each message rendered twice, and a third time after further builder calls (add an alternative / attachment / embed, change subject or header, replace the body, add a recipient). Also eight goroutines that sign and render large messages of their own at the same time. The harness splits multipart/signed with its own MIME reader and verifies the detached CMS SignedData with its own verifier; openssl smime -verify cross-checks (all cases in quick, a sample in thorough). distinct by (shape, features)",
 		Assumptions: []string{
 			"the signed entity is the first body part exactly as emitted, without the CRLF that belongs to the following delimiter (RFC 1847)",
 			"trust in the harness CMS verifier is established per run against OpenSSL 3 on every cross-checked message (a disagreement in the accepting direction is a harness error)",
@@ -476,6 +529,13 @@ func runC08(r *ev.Run, rep *ev.ReplayDoc) ev.Summary {
 	}
 	_ = filepath.Join
 	if rep != nil {
+		var cr struct {
+			Round *int `json:"concurrent_round"`
+		}
+		if json.Unmarshal(rep.Case, &cr) == nil && cr.Round != nil {
+			runC08Concurrent(r, *cr.Round)
+			return sum
+		}
 		var c c08Case
 		if err := json.Unmarshal(rep.Case, &c); err != nil {
 			r.HarnessError("bad replay case: " + err.Error())
@@ -589,6 +649,15 @@ func runC08(r *ev.Run, rep *ev.ReplayDoc) ev.Summary {
 		c.OpenSSL = !r.Thorough() || i%40 == 0
 		cases = append(cases, c)
 	}
+	// several goroutines sign and render messages of their own at the same time (large bodies: the time between the
+	// signing pass and the final pass of one render is long enough for the others to get in between)
+	// (with two processors for eight goroutines: per-processor caches - sync.Pool and the like - are shared by several
+	// goroutines then, as they are in any program that has more goroutines than cores)
+	prevProcs := runtime.GOMAXPROCS(2)
+	for round := 0; round < r.Pick(8, 40); round++ {
+		runC08Concurrent(r, round)
+	}
+	runtime.GOMAXPROCS(prevProcs)
 	r.Parallel(len(cases), func(i int) {
 		if i%97 == 0 {
 			r.Sample(map[string]any{"shape": cases[i].Spec.Shape(), "features": cases[i].Features, "key": cases[i].Spec.SMIME, "intermediate": cases[i].Spec.WithInt})
